@@ -6,7 +6,7 @@ Applies seeded/<id>/patch.diff to a scratch worktree of /repo's HEAD (never to /
 input), restores the scratch tree. The scratch worktree lives under /tmp/seedrun and is removed at the end."""
 import json, os, subprocess, sys, shutil
 ROOT = os.path.dirname(os.path.abspath(__file__))
-SCR = "/tmp/seedrun/repo"
+SCR = "/tmp/seedrun_%d/repo" % os.getpid()
 
 def sh(cmd, **kw):
     return subprocess.run(cmd, shell=True, stdout=subprocess.PIPE, stderr=subprocess.STDOUT, text=True, **kw)
@@ -18,7 +18,7 @@ def main():
         tier = sys.argv[sys.argv.index("--tier") + 1]
         args = [a for a in args if a != tier]
     keep = "--keep" in sys.argv
-    sh(f"git -C /repo worktree remove --force {SCR}; rm -rf /tmp/seedrun; mkdir -p /tmp/seedrun && git -C /repo worktree add --detach {SCR} HEAD")
+    sh(f"git -C /repo worktree remove --force {SCR}; rm -rf {os.path.dirname(SCR)}; mkdir -p {os.path.dirname(SCR)} && git -C /repo worktree add --detach {SCR} HEAD")
     results = []
     for d in args:
         d = d.rstrip("/")
@@ -38,7 +38,7 @@ def main():
         else:
             results.append((d, pid, "MISSED", (r.stdout + r.stderr)[-400:].replace("\n", " | ")))
     if not keep:
-        sh(f"git -C /repo worktree remove --force {SCR}; rm -rf /tmp/seedrun")
+        sh(f"git -C /repo worktree remove --force {SCR}; rm -rf {os.path.dirname(SCR)}")
     for (d, pid, res, detail) in results:
         print(f"{os.path.basename(d):12s} {pid} {res:40s} {detail[:200]}")
 
